@@ -210,7 +210,9 @@ def run(R):
             if q == "w3" and s.cls == "PIN_HI" and recv_is(s, ".dc"):
                 return ["args"]
             if q == "args" and s.cls == "NEXT":
-                return ["a:w0", "end"]
+                return ["a:w0", "end"]      # (a guess: the item is Some / None; a wrong guess is dropped, not rejected)
+            if q in ("end", "#drop"):
+                return ["#drop"]
             if q.startswith("a:"):
                 r = arg_strobe(q[2:], s)
                 return ["args" if x == "w3" else "a:" + x for x in r]
@@ -220,14 +222,15 @@ def run(R):
             if o.kind == "panic":
                 R.ob("C07a-no-panic", "%s|send_command|panic" % cfg, False, "send_command can panic: %s" % ({k: v for k, v in o.info.items() if k != "stack"},))
                 continue
-            fin = TR.dfa_run(o.state.trace, res.loops, {"start"}, step)
+            fin = TR.dfa_run(o.state.trace, res.loops, {"start"}, step, o.state.facts, True)
             if C.result_variant(o.value) == 0:
                 nsucc += 1
-                R.ob("C07a-command-word", "%s|send_command|success" % cfg, "end" in fin,
+                # every path of a successful call is the whole word (not: some path is)
+                R.ob("C07a-command-word", "%s|send_command|success" % cfg, "end" in fin and TR.REJECT not in fin,
                      "send_command must be: DC low, strobe(command), DC high, then one strobe per parameter byte in slice order "
                      "(DFA states reached: %s)" % sorted(fin), sample={"fn": "send_command", "dfa_states": sorted(fin)})
             else:
-                R.ob("C07a-command-word", "%s|send_command|error-prefix|%r" % (cfg, o.value), bool(fin),
+                R.ob("C07a-command-word", "%s|send_command|error-prefix|%r" % (cfg, o.value), bool(fin) and TR.REJECT not in fin,
                      "an error path of send_command is not a prefix of the command word")
         R.floor("%s|send_command success paths" % cfg, nsucc, 1)
         # the loop iterates the `args` slice itself
@@ -280,9 +283,9 @@ def run(R):
             r = word_step(q, s)
             return ["idle" if x == "w3" else x for x in r]
         for o in res.returns():
-            fin = TR.dfa_run(o.state.trace, res.loops, {"idle"}, pstep)
+            fin = TR.dfa_run(o.state.trace, res.loops, {"idle"}, pstep, o.state.facts, True)
             R.ob("C07a-pixel-strobes", "%s|send_pixels|%s" % (cfg, "ok" if C.result_variant(o.value) == 0 else "err"),
-                 ("idle" in fin) if C.result_variant(o.value) == 0 else bool(fin),
+                 (("idle" in fin) if C.result_variant(o.value) == 0 else bool(fin)) and TR.REJECT not in fin,
                  "send_pixels is not a sequence of complete word strobes (DFA states %s)" % sorted(fin))
         # ---------------- (c) repeated pixel (for the word counts per pixel that exist: N = 1, 2, 3)
         srp = C.one(F.trait_impl_method(C.IFACE, "send_repeated_pixel", self_adt=PIF), "ParallelInterface::send_repeated_pixel")
